@@ -382,7 +382,16 @@ func runLimits(c limitCase) (pbt.Result, error) {
 		return res, pbt.Fail("panic/decode", "Decode panicked on header %x: %v", clip(c.Header), pv)
 	}
 	const slack = 64 << 10
-	if after-before > limit+slack {
+	bound := limit + slack
+	if bound < limit {
+		bound = ^uint64(0)
+	}
+	if len(c.Header) >= 4 && binary.LittleEndian.Uint32(c.Header) > 512 {
+		// more segments than the decoder accepts: the first word decides, whatever MaxMessageSize is - a decoder that
+		// sizes its header table from the announced count has accepted the count
+		bound = slack
+	}
+	if after-before > bound {
 		return res, pbt.Fail("decode-allocates-beyond-limit", "Decode allocated %d bytes with MaxMessageSize %d (header %x, reuse=%v)", after-before, limit, clip(c.Header), c.Reuse)
 	}
 	nsegHdr := uint64(0)
@@ -450,6 +459,8 @@ func maxClass(m uint64) string {
 		return "<8"
 	case m <= 4096:
 		return "small"
+	case m > 1<<30:
+		return "huge"
 	}
 	return "large"
 }
@@ -463,7 +474,7 @@ func clip(b []byte) []byte {
 
 var _ = pbt.Register(pbt.Spec[limitCase]{
 	Property: "C14", Name: "decode-limits",
-	Rule:     "stream headers with segment counts in {1..7, 510..514, 2^16, 2^31, 2^32-1}, size words in {0..5, 2^20..2^32-1} (sums crossing the limit), cut headers, followed by 0-4096 zero bytes; MaxMessageSize in {0=default, 1..7, 8, 16, 24, exact, exact-1, 4096, 1MiB}; with/without ReuseBuffer and a previously decoded message. Oracle: no panic; bytes allocated by Decode (runtime/metrics /gc/heap/allocs:bytes delta, single goroutine) <= limit + 64 KiB; success => <= 513 segments, framed size <= limit, same segments as the independent unframer; a complete in-limit frame is not rejected. Non-trivial: header announces > 512 segments or Decode fails with a non-EOF error.",
+	Rule:     "stream headers with segment counts in {1..7, 510..514, 2^16, 2^31, 2^32-1}, size words in {0..5, 2^20..2^32-1} (sums crossing the limit), cut headers, followed by 0-4096 zero bytes; MaxMessageSize in {0=default, 1..7, 8, 16, 24, exact, exact-1, 4096, 1MiB, 2^34, 2^40, 2^64-8, 2^64-1 (the huge ones only when the header announces <= 64 MiB or an over-limit count)}; with/without ReuseBuffer and a previously decoded message. Oracle: no panic; bytes allocated by Decode (runtime/metrics /gc/heap/allocs:bytes delta, single goroutine) <= limit + 64 KiB, and <= 64 KiB whatever the limit when the count word exceeds 512; success => <= 513 segments, framed size <= limit, same segments as the independent unframer; a complete in-limit frame is not rejected. Non-trivial: header announces > 512 segments or Decode fails with a non-EOF error.",
 	Quick:    15000, Thorough: 150000,
 	Gen: func(t *rapid.T) limitCase {
 		c := limitCase{Header: genHeader(t), Reuse: rapid.Bool().Draw(t, "reuse")}
@@ -472,7 +483,22 @@ var _ = pbt.Register(pbt.Spec[limitCase]{
 		if segs, n, err := ref.Unframe(append(append([]byte(nil), c.Header...), make([]byte, c.Tail)...)); err == nil && len(segs) > 0 {
 			exact = uint64(n)
 		}
-		c.Max = rapid.SampledFrom([]uint64{0, 0, 1, 7, 8, 16, 24, exact, exact - 1, exact + 8, 4096, 1 << 20}).Draw(t, "max")
+		c.Max = rapid.SampledFrom([]uint64{0, 0, 1, 7, 8, 16, 24, exact, exact - 1, exact + 8, 4096, 1 << 20, 1 << 34, 1 << 40, ^uint64(0), ^uint64(0) - 7}).Draw(t, "max")
+		if c.Max > 1<<30 {
+			// "no limit": only with headers whose legal reading announces little data (a 4 GiB segment within the limit
+			// is legitimately allocated; 16 shards of that are not something the sandbox should be asked for)
+			var announced uint64
+			if len(c.Header) >= 4 {
+				if n := uint64(binary.LittleEndian.Uint32(c.Header)) + 1; n <= 513 {
+					for i := uint64(0); i < n && 4+4*i+4 <= uint64(len(c.Header)); i++ {
+						announced += 8 * uint64(binary.LittleEndian.Uint32(c.Header[4+4*i:]))
+					}
+				}
+			}
+			if announced > 64<<20 {
+				c.Max = 1 << 20
+			}
+		}
 		if c.Reuse {
 			c.Prior = rapid.SampledFrom([]int{0, 1, 64}).Draw(t, "prior")
 		}
